@@ -104,6 +104,7 @@ type c08MBuilder struct {
 	parent int
 	items  []int
 	built  bool
+	builds int
 }
 
 type c08Model struct {
@@ -115,6 +116,9 @@ type c08Model struct {
 		parent  int
 	}
 	addOrder []string
+	// symFree: token 0 carries default symbols only; a builder created from it can be filled and
+	// built again after a first Build (with custom symbols the library's Build cannot be repeated)
+	symFree bool
 }
 
 func (m *c08Model) key() string {
@@ -123,7 +127,7 @@ func (m *c08Model) key() string {
 		fmt.Fprintf(&b, "T[%s|%v|%s]", blocksString(t.blocks), t.sealed, t.origin)
 	}
 	for _, x := range m.builders {
-		fmt.Fprintf(&b, "B[%d|%v|%v]", x.parent, x.items, x.built)
+		fmt.Fprintf(&b, "B[%d|%v|%v|%d]", x.parent, x.items, x.built, x.builds)
 	}
 	for _, k := range m.blocks {
 		fmt.Fprintf(&b, "K[%d]", k.builder)
@@ -148,6 +152,23 @@ func (m *c08Model) enabled() []c08Op {
 	}
 	for bi, b := range m.builders {
 		if b.built {
+			// a built builder is filled further and built once more (only where the library supports it)
+			if m.symFree && b.parent == 0 && b.builds < 2 {
+				if len(b.items) < 3 {
+					for it := 0; it < 4; it++ {
+						dup := false
+						for _, x := range b.items {
+							if x == it {
+								dup = true
+							}
+						}
+						if !dup {
+							out = append(out, c08Op{"add", bi, it})
+						}
+					}
+				}
+				out = append(out, c08Op{"build", bi, len(m.blocks)})
+			}
 			continue
 		}
 		if len(b.items) < 2 {
@@ -195,6 +216,7 @@ func (m *c08Model) apply(o c08Op) {
 			bl = append(bl, c08Pre(j))
 		}
 		m.toks = append(m.toks, c08MTok{blocks: bl, origin: "new"})
+		m.symFree = o.A == 0 && o.B == 0
 	case "create":
 		m.builders = append(m.builders, c08MBuilder{parent: o.A})
 	case "add":
@@ -202,6 +224,7 @@ func (m *c08Model) apply(o c08Op) {
 		m.addOrder = append(m.addOrder, fmt.Sprintf("%d:%d", o.A, o.B))
 	case "build":
 		m.builders[o.A].built = true
+		m.builders[o.A].builds++
 		var its []item
 		for _, i := range m.builders[o.A].items {
 			its = append(its, c08Item(i))
